@@ -232,3 +232,117 @@ Example interval_history_transpose_memo_refuted :
   history_ok step_memo m_iv [OpTr [c4]; OpCq (-1); OpTr [c4]] (memo_init (mk_interval 6 "M" "up")) = false.
 Proof. exact interval_history_transpose_memo_refuted_lemma. Qed.
 Print Assumptions interval_history_transpose_memo_refuted.
+
+(* ---- chord roots and local keys (Model/C16_Roots.v: process_local_key, RomanNumeral.find_root_note / find_bass_note,
+   transpose_note over the module-level degree tables, as a state machine `call -> tables -> tables * observation`;
+   tied to the code by (a) the graph of the real process_local_key on its whole finite domain, tabulated in a fresh
+   interpreter on every run (Gen/C16_RootsTab.v), (b) the degree tables read from that interpreter, (c) generated call
+   sequences executed forwards and reversed in one interpreter each and replayed through the machine,
+   harness/props/c16.py stream "roots"). ---- *)
+From PV Require Proofs.C16_roots Proofs.C16_roots_tab Gen.C16_RootsTab.
+From PV Require Import Model.C16_Roots.
+
+(* state carried between calls: after ANY sequence of calls every call returns what it returns in a fresh interpreter --
+   a function of its own arguments -- and the module-level tables are what they were *)
+Theorem roots_history_pure : forall ops,
+  fst (run step_code ops init_tables) = map obs_fresh ops /\ snd (run step_code ops init_tables) = init_tables.
+Proof. exact PV.Proofs.C16_roots.roots_history_pure_lemma. Qed.
+Print Assumptions roots_history_pure.
+
+Theorem roots_history_after_any : forall pre o,
+  fst (run step_code (pre ++ [o]) init_tables) = fst (run step_code pre init_tables) ++ [obs_fresh o].
+Proof. exact PV.Proofs.C16_roots.roots_history_after_any_lemma. Qed.
+Print Assumptions roots_history_after_any.
+
+Theorem roots_history_reversed : forall ops,
+  fst (run step_code (rev ops) init_tables) = rev (fst (run step_code ops init_tables)).
+Proof. exact PV.Proofs.C16_roots.roots_history_reversed_lemma. Qed.
+Print Assumptions roots_history_reversed.
+
+Theorem roots_tables_untouched : forall ops t, snd (run step_code ops t) = t.
+Proof. exact PV.Proofs.C16_roots.roots_tables_untouched_lemma. Qed.
+Print Assumptions roots_tables_untouched.
+
+(* NOT vacuous: a machine that keeps one Interval object per local-key degree at module level and lets change_quality
+   work on the table entry (not the code) answers B flat for VII of C major once bVII of C major has been asked *)
+Example roots_history_shared_refuted :
+  let bVII := mk_deg None (Some 7) (-1) false false in
+  let VII := mk_deg None (Some 7) 0 false false in
+  let C := (0, 0, false) in
+  fst (run step_shared [OPlk bVII C false; OPlk VII C false] init_tables)
+    = [BRes (RName (6, -1, false)); BRes (RName (6, -1, false))] /\
+  obs_fresh (OPlk VII C false) = BRes (RName (6, 0, false)) /\
+  snd (run step_shared [OPlk bVII C false] init_tables) <> init_tables.
+Proof. exact PV.Proofs.C16_roots.roots_history_shared_refuted_lemma. Qed.
+Print Assumptions roots_history_shared_refuted.
+
+(* Interval.change_quality(num) moves the size of the interval by num semitones, for every interval class and every
+   num it accepts (the two quality ladders) *)
+Theorem change_quality_size : forall n q k q' s,
+  change_quality n q k = Some q' -> C16.iv_semitones n q = Some s -> C16.iv_semitones n q' = Some (s + k).
+Proof. exact PV.Proofs.C16_roots.change_quality_size_lemma. Qed.
+Print Assumptions change_quality_size.
+
+(* process_local_key is the diatonic arithmetic: whenever it returns (a name or a step/alteration pair) outside its
+   shortcut, the key note has moved by n - 1 staff steps and by the size of scale degree n of the key's mode plus the
+   accidentals of the degree -- the diatonic specification tr_spec of _transpose_note_inplace, for every octave *)
+Theorem local_key_spec : forall d k rsa n i' a',
+  plk_identity d k rsa = false -> d_num d = Some n ->
+  (plk init_tables d k rsa = RPair i' a' \/ exists l, plk init_tables d k rsa = RName (i', a', l)) ->
+  1 <= n <= 7 /\ 0 <= i' <= 6 /\
+  forall o, exists o', C16.tr_spec n (scale_size (snd k) n + d_acc d) true (fst (fst k), snd (fst k), o) = (i', a', o').
+Proof. exact PV.Proofs.C16_roots.local_key_spec_lemma. Qed.
+Print Assumptions local_key_spec.
+
+(* RomanNumeral.find_root_note: whenever it returns, the root is the key note moved by the interval of the secondary
+   degree (in the mode of the key) and then by the interval of the primary degree (in the mode the secondary degree
+   is written in), both by the diatonic specification; deg_size = catalogue entry, else scale degree + accidentals *)
+Theorem root_spec : forall k d1 d2 ri ra rl,
+  0 <= fst (fst k) <= 6 ->
+  find_root init_tables k d1 d2 = Some (ri, ra, rl) ->
+  exists n2 s2 n1 s1 si sa,
+    deg_size (snd k) d2 = Some (n2, s2) /\ deg_size (d_lower_all d2) d1 = Some (n1, s1) /\
+    forall o, exists o' o'', C16.tr_spec n2 s2 true (fst (fst k), snd (fst k), o) = (si, sa, o') /\
+                             C16.tr_spec n1 s1 true (si, sa, o') = (ri, ra, o'').
+Proof. exact PV.Proofs.C16_roots.root_spec_lemma. Qed.
+Print Assumptions root_spec.
+
+(* find_bass_note: the root moved by a third (minor for a lower-case degree) / perfect fifth / minor seventh *)
+Theorem bass_spec : forall ri ra rl inv pl bi ba bl,
+  0 <= ri <= 6 -> find_bass (ri, ra, rl) inv pl = Some (bi, ba, bl) ->
+  forall o, exists o', C16.tr_spec (fst (PV.Proofs.C16_roots.bass_interval inv pl)) (snd (PV.Proofs.C16_roots.bass_interval inv pl)) true (ri, ra, o) = (bi, ba, o').
+Proof. exact PV.Proofs.C16_roots.bass_spec_lemma. Qed.
+Print Assumptions bass_spec.
+
+(* V65/bVII in C major: root F, bass A; bII of a minor: B flat *)
+Example roots_example :
+  let C := (0, 0, false) in
+  let V := mk_deg (Some 5) (Some 5) 0 false false in
+  let bVII := mk_deg None (Some 7) (-1) false false in
+  find_root init_tables C V bVII = Some (3, 0, false) /\
+  find_bass (3, 0, false) 1 false = Some (5, 0, false) /\
+  plk init_tables (mk_deg None (Some 2) (-1) false false) (5, 0, true) false = RName (6, -1, false).
+Proof. exact PV.Proofs.C16_roots.roots_example_lemma. Qed.
+Print Assumptions roots_example.
+
+(* T2, complete finite domain (the bound is in the statement): the REAL process_local_key equals the model for all
+   7 degrees x upper/lower case x accidentals -2..2 x 7 key steps x key alterations -2..2 x major/minor x
+   return_step_alter (9800 rows; RErr = an exception) *)
+Theorem impl_local_key_domain : forall n lower acc ki ka kmin rsa,
+  1 <= n <= 7 -> -2 <= acc <= 2 -> 0 <= ki <= 6 -> -2 <= ka <= 2 ->
+  In (n, lower, acc, ki, ka, kmin, rsa, plk init_tables (deg_of n lower acc) (ki, ka, kmin) rsa) C16_RootsTab.tab_plk.
+Proof. exact PV.Proofs.C16_roots_tab.impl_local_key_domain_lemma. Qed.
+Print Assumptions impl_local_key_domain.
+
+Theorem impl_local_key_rows : forall n lower acc ki ka kmin rsa out,
+  In (n, lower, acc, ki, ka, kmin, rsa, out) C16_RootsTab.tab_plk ->
+  out = plk init_tables (deg_of n lower acc) (ki, ka, kmin) rsa.
+Proof. exact PV.Proofs.C16_roots_tab.impl_local_key_rows_lemma. Qed.
+Print Assumptions impl_local_key_rows.
+
+(* Roman2Interval_Maj / _Min and LOCAL_KEY_TRASPOSITIONS_DCML as read from a fresh interpreter = the model's tables
+   (if a tree has no such module-level names, refl_* are the model's tables and C16_RootsTab.refl_present is false) *)
+Theorem impl_degree_tables :
+  mk_tabs C16_RootsTab.refl_maj C16_RootsTab.refl_min C16_RootsTab.refl_lkmaj C16_RootsTab.refl_lkmin = init_tables.
+Proof. exact PV.Proofs.C16_roots_tab.impl_degree_tables_lemma. Qed.
+Print Assumptions impl_degree_tables.
